@@ -44,6 +44,28 @@ def gen_conv(seed, shard, n):
     plo, pla = C.equatorial2galactic(A(192.25), A(27.4))
     pole = F3(U(float(plo), float(pla)))
     for (lon, lat) in directions(rng, n):
+        for ev in _conv_one(C, A, rng, lon, lat, G, pole):
+            yield ev
+
+
+def _conv_one(C, A, rng, lon, lat, G, pole):
+    """the three conversion families for one direction; a conversion that raises is logged, not propagated"""
+    it = _conv_events(C, A, rng, lon, lat, G, pole)
+    while True:
+        try:
+            ev = next(it)
+        except StopIteration:
+            return
+        except Exception as ex:
+            import traceback
+            fn = traceback.extract_tb(ex.__traceback__)[-1].name
+            yield {"k": "raise", "site": fn, "in": [lon, lat], "maxlat": abs(lat), "exc": type(ex).__name__}
+            return
+        yield ev
+
+
+def _conv_events(C, A, rng, lon, lat, G, pole):
+    if True:
         polar = max(abs(lat), 0.0)
         # --- ecliptical
         eps = rng.choice([0.0, 23.4392911, 30.0, rng.uniform(0, 30), 23.4392911 + rng.uniform(-1e-6, 1e-6)])
